@@ -197,6 +197,7 @@ func TestProp(t *testing.T) {
 			runHistory(rep, ps, "c05-timeout", i, r, points[pt], pl)
 		})
 	}
+	runNoGrace(rep, env)
 	if env.Replay == "" {
 		rep.Floor("timeouts_refused_no_grace", 6)
 		rep.Floor("grace_granted_inside_window", 100)
@@ -529,4 +530,86 @@ func gapClass(g time.Duration) string {
 		return "G..L/2"
 	}
 	return ">=L/2"
+}
+
+
+// runNoGrace: a deployment whose grace period is configured as 0s (SESSION_TTL_GRACEPERIOD=0s). A
+// session whose outage began earlier (the cookie carries the start of the episode) meets a 429/503 at a
+// due check: the grace TTL - zero - has elapsed since the first such answer, so the request is refused.
+// (Added after seeded change C05k - zero TTLs replaced by the 3h default "for configurations
+// assembled in code" - was missed: only one grace TTL had ever been configured.)
+func runNoGrace(rep *vh.Report, env vh.Env) {
+	only, skip := env.Only("c05-nograce")
+	if skip {
+		return
+	}
+	ps, err := sut.NewProxyStack(sut.ProxyOpts{ViaEnv: true, NoGrace: true, Upstreams: []sut.UpstreamSpec{
+		{Service: "grp", From: "grp.sso.test", AllowedGroups: []string{"eng", "ops"}},
+	}})
+	if err != nil {
+		rep.Inconclusive("no-grace stack did not start: " + err.Error())
+		return
+	}
+	defer ps.Close()
+	host := "grp.sso.test"
+	n := env.Pick(120, 1500)
+	vh.ForEach(n, 0, only, func(i int) {
+		r := vh.CaseRNG(env.Seed, "c05-nograce", i)
+		uid := sut.NewID()
+		email := "user" + uid + "@corp.test"
+		s := ps.Session(host, email, []string{"eng"})
+		at, rt, nt := "zat-"+uid, "zrt-"+uid, "znt-"+uid
+		s.AccessToken, s.RefreshToken = at, rt
+		now := time.Now()
+		s.GracePeriodStart = now.Add(-time.Duration(90+r.Intn(7200)) * time.Second) // the episode began earlier
+		s.ValidDeadline = now.Add(-time.Duration(60+r.Intn(600)) * time.Second)
+		status := []int{429, 503}[r.Intn(2)]
+		point := []string{"validate", "profile", "refresh", "refresh-then-profile"}[r.Intn(4)]
+		ps.Auth.Set("validate", at, sut.ValidateOK())
+		ps.Auth.Set("profile", at, sut.ProfileOK(email, []string{"eng"}))
+		ps.Auth.Set("profile", nt, sut.ProfileOK(email, []string{"eng"}))
+		ps.Auth.Set("refresh", rt, sut.RefreshOK(nt, 3600))
+		switch point {
+		case "validate":
+			ps.Auth.Set("validate", at, withRetryAfter(sut.Status(status), r.Intn(5)))
+		case "profile":
+			ps.Auth.Set("profile", at, withRetryAfter(sut.Status(status), r.Intn(5)))
+		case "refresh":
+			s.RefreshDeadline = now.Add(-time.Duration(60+r.Intn(600)) * time.Second)
+			ps.Auth.Set("refresh", rt, withRetryAfter(sut.Status(status), r.Intn(5)))
+		case "refresh-then-profile":
+			s.RefreshDeadline = now.Add(-time.Duration(60+r.Intn(600)) * time.Second)
+			ps.Auth.Set("profile", nt, withRetryAfter(sut.Status(status), r.Intn(5)))
+		}
+		defer func() {
+			ps.Auth.Unset("validate", at)
+			ps.Auth.Unset("profile", at)
+			ps.Auth.Unset("profile", nt)
+			ps.Auth.Unset("refresh", rt)
+		}()
+		target := []string{"/x/" + uid, "/oauth2/auth"}[r.Intn(2)]
+		rs := ps.Client.Do(sut.Req{Host: host, Target: target, Cookies: []string{ps.CookieName + "=" + ps.Seal(s)}})
+		rep.Eval()
+		if rs.Err != nil {
+			rep.Count("client_errors", 1)
+			return
+		}
+		consulted := len(ps.Auth.PeekCalls("validate", at))+len(ps.Auth.PeekCalls("refresh", rt)) > 0
+		served := len(ps.Hits(rs.ID)) > 0 || (target == "/oauth2/auth" && rs.Status == 202)
+		rep.Distinct(fmt.Sprintf("nograce|%s|%d|%s", point, status, target[:3]))
+		if served {
+			rep.Violate("c05-nograce", i, "grace-although-ttl-is-zero at="+point,
+				fmt.Sprintf("grace period configured as 0s, outage answer %d at %s with the episode already begun, yet the request was served (status %d, authenticator consulted: %v)", status, point, rs.Status, consulted),
+				map[string]interface{}{"index": i, "point": point, "unavailable_status": status, "target": target, "status": rs.Status})
+			return
+		}
+		rep.Count("no_grace_refused", 1)
+		rep.Count("no_grace_refused_at_"+point, 1)
+	})
+	if only < 0 {
+		rep.Floor("no_grace_refused", 60)
+		for _, p := range []string{"validate", "profile", "refresh", "refresh-then-profile"} {
+			rep.Floor("no_grace_refused_at_"+p, 5)
+		}
+	}
 }
